@@ -67,6 +67,9 @@ def check_formulas(ctx):
         if rule == 'R1.1-formula' and 'volume' in key:
             ctx.ob('R11.1-volume-formula', key, ok, where, what, detail)
             n += 1
+        if rule == 'R1.2-binding' and key == 'MassActionPropensity/species':
+            # the exponent of V in the mass-action volume forms is num_species - 1: it must be the molecularity (sum of the multiplicities)
+            ctx.ob('R11.1-volume-exponent', key, ok, where, what + ' (the volume exponent of mass action is num_species - 1)', detail)
     sub = Sub(ctx)
     for cls in ('ModelCSimInterface', 'SafeModelCSimInterface'):
         for slot in ('compute_volume_propensities', 'compute_stochastic_volume_propensities'):
